@@ -60,8 +60,15 @@ def main():
         if rc != 0:
             res["reject"] = "does not compile"
             return finish(res, src, out, meta, wt)
-        rc, o, dt = run(meta["pkg_tests_cmd"], wt, timeout=5400)
-        res["ran"].append({"step": "existing tests of the touched packages with the change", "cmd": meta["pkg_tests_cmd"], "exit": rc, "s": round(dt, 1), "tail": tail(o, 6)})
+        attempts = 0
+        while True:  # data/trie has timing-sensitive tests that fail now and then on the unchanged tree under load
+            attempts += 1
+            rc, o, dt = run(meta["pkg_tests_cmd"], wt, timeout=5400)
+            fails = [l for l in o.splitlines() if l.startswith("--- FAIL")]
+            res["ran"].append({"step": f"existing tests of the touched packages with the change (attempt {attempts})", "cmd": meta["pkg_tests_cmd"], "exit": rc, "s": round(dt, 1),
+                               "failed_tests": fails[:5], "tail": tail(o, 6)})
+            if rc == 0 or attempts >= 3:
+                break
         if rc != 0:
             res["reject"] = "existing tests of the touched packages fail with the change"
             return finish(res, src, out, meta, wt)
